@@ -18,6 +18,10 @@ warnings.filterwarnings("ignore")
 def main() -> None:
     from pathlib import Path
     spec = json.load(open(sys.argv[1], encoding="utf-8"))
+    if spec.get("cpu_count"):
+        # a machine with few CPUs (configuration): os.cpu_count() is what the library would consult
+        count = int(spec["cpu_count"])
+        os.cpu_count = lambda: count
     from rtmon import history as H
     out: dict = {"returns": None, "exc": None}
     try:
